@@ -38,6 +38,13 @@ def cells(tier, seed):
     for name in OVERRIDE_BUILDERS:
         for g in ("override_root_then_inv", "override_inv_then_root"):
             out.append({"id": f"{name}/b-/{g}", "params": {"builder": name, "n": 2, "batch": [], "group": g}})
+    # structured (per-factor) roots of Kronecker products: taken only when the product exceeds max_cholesky_size while its factors do not
+    for name in ("KroneckerPD", "KroneckerDiag"):
+        for batch in ((), (2,)):
+            if tier == "quick" and batch and name != "KroneckerPD":
+                continue
+            out.append({"id": f"{name}/b{'x'.join(map(str, batch)) or '-'}/structured_above_chol_size",
+                        "params": {"builder": name, "n": 2, "batch": list(batch), "group": "structured_above_chol_size"}})
     for name in ("DensePD", "Diag", "AddedDiag", "DenseEig"):
         out.append({"id": f"{name}/b-/lanczos_root", "params": {"builder": name, "n": 2, "batch": [], "group": "lanczos_root"}})
     return out
@@ -50,7 +57,7 @@ def explore_opts(params, tier):
 
 def describe(tier):
     return {
-        "bounds": {"n": 2, "kronecker/block size": 4, "groups": GROUPS_CHOL + GROUPS_EIG + ["lanczos_root"]},
+        "bounds": {"n": 2, "kronecker/block size": 4, "groups": GROUPS_CHOL + GROUPS_EIG + ["lanczos_root", "structured_above_chol_size (max_cholesky_size = 3: 4x4 Kronecker product above, 2x2 factors below)"]},
         "outside": ["svd / pivoted_cholesky / pinverse roots on symbolic matrices without a registered decomposition",
                     "Lanczos roots beyond n = 2", "tolerance clauses",
                     "class-specific roots entered through the default method above max_cholesky_size: the inner Kronecker diagonalization is then "
@@ -123,6 +130,16 @@ def harness(ctx):
                 w2, Q2 = op.diagonalization(method="symeig")
                 check_eigh(ctx, w2, Q2, ref, "diagonalization(symeig) above max_cholesky_size")
                 check_root(ctx, op.root_decomposition(method="symeig").root, ref, "root_decomposition(symeig) above max_cholesky_size")
+        attempt(ctx, g, chk)
+        return
+    if g == "structured_above_chol_size":
+        def chk():
+            with settings.max_cholesky_size(3):
+                check_root(ctx, op.root_decomposition().root, ref, "root_decomposition() [per-factor roots, product above max_cholesky_size]")
+                check_root_inv(ctx, op.root_inv_decomposition().root, ref, "root_inv_decomposition() [per-factor roots, product above max_cholesky_size]")
+                op2, ref2 = b(ctx, p["n"], batch, p="second_")
+                check_root_inv(ctx, op2.root_inv_decomposition().root, ref2, "root_inv_decomposition() first [per-factor roots]")
+                check_root(ctx, op2.root_decomposition(method="cholesky").root, ref2, "root_decomposition(cholesky) after inverse root [per-factor roots]")
         attempt(ctx, g, chk)
         return
     if g == "root_symeig":
